@@ -190,8 +190,7 @@ prop("C17", "exploration",
      "ineligible files where a pattern or the age decides. Histories (W1): 1-4 source files plus hidden / locked / empty files; up to 70 steps of serve, "
      "wait, add / rewrite / append / touch, and replacing a file by a same-size file with an EARLIER modification time, between and during scans, "
      "hashing and transmission, a quarter of the files being symbolic links to files outside the directory, with or without transport faults (refused, "
-     "lost answer, partial, cut, flipped byte); "
-     "hashing and transmission; oracle = after a quiet period the current version of every name was transmitted in full, no version is delivered twice "
+     "lost answer, partial, cut, flipped byte); oracle = after a quiet period the current version of every name was transmitted in full, no version is delivered twice "
      "without a failed verdict, no arrival is a mixture (arrival monitor), ineligible files neither transmitted nor touched; non-trivial = a change made "
      "while requests were outstanding",
      [dict(pkg="storex", test="TestC17Scan", world="W0", quick=6000, thorough=200000, required_classes=["symlink-to-file", "disabled-at-root"]),
